@@ -580,9 +580,11 @@ package geom
 //@   prop C13
 //@   mode real
 //@   ensures [type] typeof(result) == MultiLineString && fresh(result.(MultiLineString)) && len(result.(MultiLineString)) == len(ml)
+//@   ensures [member_endpoints] forall k int :: 0 <= k && k < len(ml) && len(ml[k]) >= 1 ==> len(result.(MultiLineString)[k]) >= 1 && len(result.(MultiLineString)[k]) <= len(ml[k]) && result.(MultiLineString)[k][0] == ml[k][0] && result.(MultiLineString)[k][len(result.(MultiLineString)[k])-1] == ml[k][len(ml[k])-1]
 //@   modifies nothing
 //@   loop 1 `for i, l := range ml`
 //@     invariant [prefix] 0 <= #1 && #1 <= len(ml) && fresh(out) && len(out) == len(ml)
+//@     invariant [member_endpoints] forall k int :: 0 <= k && k < #1 && len(ml[k]) >= 1 ==> len(out[k]) >= 1 && len(out[k]) <= len(ml[k]) && fresh(out[k]) && out[k][0] == ml[k][0] && out[k][len(out[k])-1] == ml[k][len(ml[k])-1]
 
 //@ func (mp MultiPolygon) Simplify
 //@   prop C13
